@@ -235,6 +235,21 @@ func (g *lockGen) plan() *BlockPlan {
 			weights = append(weights, Ev{"t": t, "w": wgt})
 		}
 	}
+	if rare(2) && len(weights) == 0 {
+		// a jailed validator whose jail time is about to end sees the weights of everything it holds drop to zero (never the bedrock
+		// token's): what it locks next may meet every threshold and still be worth no power at all
+		for _, v := range st.Val {
+			if !v.Exists || v.Status != "Downgrade" || now+2 < v.JailedUntil || v.Locking[0] > 0 || len(weights) > 0 {
+				continue
+			}
+			for ti := range st.Tokens {
+				if ti > 0 && v.Locking[ti] > 0 && st.Tokens[ti].Exists && st.Tokens[ti].Weight > 0 {
+					lk.UpdateWeights = append(lk.UpdateWeights, &goattypes.UpdateTokenWeightRequest{Token: project.TokenAddrs[ti], Weight: 0})
+					weights = append(weights, Ev{"t": ti + 1, "w": int64(0)})
+				}
+			}
+		}
+	}
 	if rare(4) && len(weights) == 0 { // a weight change of a token that a jailed / exited / tombstoned validator still holds (it must not regain power)
 		for _, v := range st.Val {
 			if !v.Exists || v.Status == "Active" || v.Status == "Pending" {
